@@ -54,6 +54,26 @@ def inline_class(cfg, msg):
     if cfg.startswith('inline') and re.search(r'^after p:\w:0:-1: file \w has size 0, model says \d+', msg): return 'inline-punch-to-end-truncates'
     return None
 
+def enospc_class(cfg, errs, msg):
+    """A fallocate that runs out of space on a nearly full filesystem returns EXT2_ET_BLOCK_ALLOC_FAIL but keeps what it did so far: clusters already
+    claimed for an extent that could not be inserted stay marked and charged to i_blocks, and initialised extents it created past EOF stay (the caller is
+    told nothing about how far it got).  Only exactly these e2fsck complaints, and only when the history has such a failed fallocate, are classified."""
+    if not cfg.endswith('_full'): return None
+    fails = [e.split('=')[0] for e in (errs or '').split() if e.startswith('a:') and e.endswith('=2133571400')]
+    if not fails or not msg.startswith('e2fsck -fn exits 4 after the history: '): return None
+    init_fail = any(int(f.split(':')[2]) & 10 for f in fails)
+    kinds = set()
+    for part in msg.split(': ', 1)[1].split(' | '):
+        part = part.strip()
+        m = re.match(r'^Inode \d+, i_blocks is (\d+), should be (\d+)\.\s+Fix\? no$', part)
+        if m and int(m.group(1)) > int(m.group(2)): kinds.add('leak'); continue
+        if re.match(r'^Block bitmap differences:( +-(\(\d+--\d+\)|\d+))+$', part): kinds.add('leak'); continue
+        m = re.match(r'^Inode \d+, i_size is (\d+), should be (\d+)\.\s+Fix\? no$', part)
+        if m and init_fail and int(m.group(1)) < int(m.group(2)): kinds.add('past-eof'); continue
+        if part == 'Fix? no' or re.match(r'^Free blocks count wrong', part): continue
+        return None
+    return 'fallocate-enospc-' + '+'.join(sorted(kinds)) if kinds else None
+
 def run_batch(j):
     cfg, hists = j
     w = fsweep.scratch_worker()
@@ -76,18 +96,21 @@ def check_state(j):
     cfg, hist = j
     w = fsweep.scratch_worker()
     sf = os.path.join(w, 'fileopx_k.img')
-    subprocess.run([EXE, BASES[cfg], sf], input=hist + '\n', stdout=subprocess.PIPE, stderr=subprocess.PIPE, text=True,
+    hp = subprocess.run([EXE, BASES[cfg], sf], input=hist + '\n', stdout=subprocess.PIPE, stderr=subprocess.PIPE, text=True,
                    env={'ASAN_OPTIONS': 'detect_leaks=0:halt_on_error=0', 'E2FSPROGS_FAKE_TIME': '1700000000', 'TZ': 'GMT0'}, timeout=600)
+    try: errs = json.loads(hp.stdout.splitlines()[0]).get('errs', '')
+    except Exception: errs = ''
     rc, out = run([E2FSCK, '-fn', sf], timeout=60)
     if rc != 0:
         msg = ' | '.join(l for l in out.splitlines() if l.strip() and not l.startswith('Pass ') and not l.startswith('e2fsck ') and '.img:' not in l)
-        return (cfg, hist, 'e2fsck -fn exits %s after the history: %s' % (rc, msg[:400]))
+        msg = 'e2fsck -fn exits %s after the history: %s' % (rc, msg[:400])
+        return (cfg, hist, msg, enospc_class(cfg, errs, msg))
     try:
         v = xcheck(open(sf, 'rb').read())
     except Exception as e:
         v = [('S', 'unreadable', repr(e))]
-    if v: return (cfg, hist, 'independent checker: %s' % [list(x) for x in v[:3]])
-    return (cfg, hist, None)
+    if v: return (cfg, hist, 'independent checker: %s' % [list(x) for x in v[:3]], None)
+    return (cfg, hist, None, None)
 
 def main(tier, only=None):
     global EXE, BASES, E2FSCK
@@ -105,6 +128,7 @@ def main(tier, only=None):
             if CONFIGS[c][1] == 4096: size *= 4
             rc, out = run([tool('mke2fs'), '-q', '-F', '-U', '6b33f586-a183-4383-921d-30ab132db9b9'] + CONFIGS[c][0] + [p, '%dk' % size], timeout=60)
             if rc: log('C09: cannot build base %s: %s' % (name, out[-200:])); continue
+            os.truncate(p, size * 1024)     # mke2fs leaves a sparse tail unwritten; e2fsck would report a device smaller than the filesystem
             run([tool('debugfs'), '-w', '-R', 'write /dev/null A', p]); run([tool('debugfs'), '-w', '-R', 'write /dev/null B', p])
             BASES[name] = p
     total_tr = 0; total_states = 0; per = {}; maxdepth = 0
@@ -149,8 +173,8 @@ def main(tier, only=None):
         if quick: st = st[::3]
         if len(st) > 20000: st = st[::(len(st) + 19999) // 20000]          # bounded number of full consistency checks per configuration (deterministic stride)
         cres = pmap(check_state, [(name, h) for h in st], chunksize=8)
-        for cfg, h, msg in cres:
-            if msg: ck.violation('%s :: %s :: consistency' % (name, h), {'config': name, 'history': h, 'what': msg, 'root_cause_class': inline_class(name, msg)})
+        for cfg, h, msg, cls in cres:
+            if msg: ck.violation('%s :: %s :: consistency' % (name, h), {'config': name, 'history': h, 'what': msg, 'root_cause_class': cls or inline_class(name, msg)})
         per[name] = {'states': len(seen), 'transitions': trans, 'depth_completed': dmax, 'states_checked_by_e2fsck_and_xck': len(st)}
         total_tr += trans; total_states += len(seen); maxdepth = max(maxdepth, dmax)
     ck.add(evaluations=total_tr, distinct_nontrivial=total_states, states=total_states, transitions=total_tr, traces_validated_against_impl=total_tr,
@@ -171,8 +195,12 @@ def replay(path):
     p = os.path.join(scratch(), c + '.img')
     size = (400 if not c.endswith('_full') else 60) * (4 if CONFIGS[base][1] == 4096 else 1)
     run([tool('mke2fs'), '-q', '-F', '-U', '6b33f586-a183-4383-921d-30ab132db9b9'] + CONFIGS[base][0] + [p, '%dk' % size])
+    os.truncate(p, size * 1024)
     run([tool('debugfs'), '-w', '-R', 'write /dev/null A', p]); run([tool('debugfs'), '-w', '-R', 'write /dev/null B', p])
     BASES = {c: p}
     r = run_batch((c, [d['history']]))
     print(r)
-    return 1 if r and r[0]['bad'] else 0
+    if r and r[0]['bad']: return 1
+    cfg, h, msg, cls = check_state((c, d['history']))
+    if msg: print(msg, '[class: %s]' % cls)
+    return 1 if msg else 0
